@@ -96,6 +96,11 @@ func PhiAlong(v ssa.Value, path []*ssa.BasicBlock) ssa.Value {
 	return v
 }
 
+// AbsBool evaluates a boolean value at the end of an abstract path.
+func AbsBool(v ssa.Value, path []*ssa.BasicBlock, cls Classifier, c AbsCase) (val bool, known bool, why string) {
+	return absCond(v, path, cls, c)
+}
+
 func absCond(cond ssa.Value, path []*ssa.BasicBlock, cls Classifier, c AbsCase) (bool, bool, string) {
 	switch x := cond.(type) {
 	case *ssa.Const:
